@@ -432,11 +432,14 @@ func (t *Terms) condFacts(cond ssa.Value, pol bool) []Fact {
 		}
 	}
 plain:
-	a := t.T(cond)
+	a, b := t.T(cond), "const:false"
 	if pol {
-		return []Fact{{"EQ", a, "const:true"}}
+		b = "const:true"
 	}
-	return []Fact{{"EQ", a, "const:false"}}
+	if a > b {
+		a, b = b, a
+	}
+	return []Fact{{"EQ", a, b}}
 }
 
 // reachableWithout computes the blocks reachable from start without entering block `without`.
